@@ -16,7 +16,8 @@ THEOREMS = ['C04_idempotent', 'C04_idempotent_executable', 'C04_mirror_plans_not
 LINK_FORMS = [b'a', b'./a', b'a/', b'a//b', b'../x', b'.', b'..', b'x/./y', b'/abs/x', b'//abs', b'a\\b', b'dir/../a', b' ', b'a b', b'\xc3\xa9',
               b'nonexistent', b'./.', b'a/.', b'.hidden', b'...']
 NONUTF8 = [b't\xffx', b'\xfe', b'a/\xc0\xaf']
-TIMES = [0, 1, 999_999_999, 10**9, T0 + 123_456_789, 2**31 * 10**9, 2**31 * 10**9 + 1, 4_102_444_800 * 10**9 + 5, 4_500_000_000 * 10**9 + 999_999_999]
+TIMES = [0, 1, 999_999_999, 10**9, T0 + 123_456_789, 2**31 * 10**9, 2**31 * 10**9 + 1, 4_102_444_800 * 10**9 + 5, 4_500_000_000 * 10**9 + 999_999_999,
+         10_413_792_000 * 10**9 + 7]      # ... 2100, 2112, and 2300: beyond what a signed 64-bit nanosecond count holds (2262)
 
 
 def is_utf8(b):
@@ -39,6 +40,10 @@ def family_scenarios(rng):
     sc.outside = {'': {'k': 'dir'}}
     sc.tag = 'forms'
     out.append(sc)
+    for pl in ('LR', 'RL', 'RR'):          # behind a remote doer every entry detail (times, link texts) crosses the wire in both directions
+        s3 = sync_e2e.Scenario.from_json(sc.to_json())
+        s3.placement, s3.tag = pl, 'forms-' + pl
+        out.append(s3)
     for t in NONUTF8:
         s2 = sync_e2e.Scenario()
         s2.src = {'': {'k': 'dir'}, 'weird': {'k': 'link', 'text': t}, 'ok': {'k': 'file', 'data': b'1', 'mtime_ns': T0}}
@@ -162,12 +167,14 @@ def check(run):
         scen.append(sc)
     known = {f['id']: f for f in vlib.known_findings('C04')}
     base = tempfile.mkdtemp(prefix='c04_', dir=vlib.CACHE)
+    fake = e2e.fake_ssh_dir(base)
     try:
         for sc in scen:
             root, src_abs, dest_abs = sync_e2e.make_sandbox(sc, base)
             try:
                 args = sync_e2e.cli_args(sc, src_abs, dest_abs)
-                r1 = e2e.run_cli(binary, args)
+                fk = fake if 'R' in sc.placement else None
+                r1 = e2e.run_cli(binary, args, fake_ssh=fk)
                 run.count('tag:' + sc.tag)
                 run.count('first-exit:%s' % r1['exit'])
                 if r1['exit'] != 0:
@@ -175,7 +182,7 @@ def check(run):
                     continue
                 snap1 = e2e.snapshot(dest_abs)
                 log = os.path.join(root, 'cmdlog2')
-                r2 = e2e.run_cli(binary, args, env={'RJRSSYNC_VERIF_CMD_LOG': log})
+                r2 = e2e.run_cli(binary, args, env={'RJRSSYNC_VERIF_CMD_LOG': log}, fake_ssh=fk)
                 snap2 = e2e.snapshot(dest_abs)
                 try:
                     lines = open(log).read().splitlines()
